@@ -1469,6 +1469,13 @@ void SPxMainSM<R>::AggregationPS::execute(VectorBase<R>& x, VectorBase<R>& y, Ve
    x[m_j] = z * scale / aij;
    s[m_i] = m_rhs;
 
+   // the sides of all other rows containing x_j were shifted by the aggregation constant rhs / aij
+   for(int k = 0; k < m_col.size(); ++k)
+   {
+      if(m_col.index(k) != m_i)
+         s[m_col.index(k)] += m_col.value(k) * (m_rhs / aij);
+   }
+
    if(isOptimal && (LT(x[m_j], m_lower, this->feastol()) || GT(x[m_j], m_upper, this->feastol())))
    {
       SPX_MSG_ERROR(std::cerr << "EMAISM: numerical violation after disaggregating variable" << std::endl;
@@ -1573,7 +1580,14 @@ void SPxMainSM<R>::MultiAggregationPS::execute(VectorBase<R>& x, VectorBase<R>& 
       z = 0.0;
 
    x[m_j] = z * scale / aij;
-   s[m_i] = 0.0;
+   s[m_i] = m_const;
+
+   // the sides of all other rows containing x_j were shifted by the aggregation constant m_const / aij
+   for(int k = 0; k < m_col.size(); ++k)
+   {
+      if(m_col.index(k) != m_i)
+         s[m_col.index(k)] += m_col.value(k) * (m_const / aij);
+   }
 
 #ifndef NDEBUG
 
